@@ -26,6 +26,7 @@ package main
 //	                     race hunting scenarios switch it off.
 //	deadline 60000       ms until the goroutines are told to stop; 10 s later whatever still runs is "stuck"
 //	directed <name>      run a directed two/three goroutine schedule instead of the generator (see directed())
+//	storedelay <permille> <max µs>   slow store: LoadSession/DeleteSession sleep up to max µs with that probability (default 0 0)
 //	iters 300            iterations of a directed schedule
 //
 // Transcript:
@@ -35,6 +36,7 @@ package main
 //	ret <ts> <g> <op> <result>                      ... returned: ok | err | <value> | - (nothing stored)
 //	panic <g> <message>                             a recovered panic inside an API call
 //	stuck <n>                                       n goroutines had not finished at the hard deadline
+//	resurrect <iteration> <setup> <what>            directed destroy-race: an ended session was obtainable afterwards
 //	stat <name> <n>
 //	end
 import (
@@ -63,11 +65,33 @@ import (
 type lockedStore struct {
 	mu sync.Mutex
 	st *store
+	// a slow store: with probability delayPermille/1000 LoadSession and DeleteSession wait up to delayMaxUs
+	// microseconds of real time before they touch the records (before taking the store's mutex)
+	delayPermille, delayMaxUs int
+}
+
+func (l *lockedStore) delay() {
+	if l.delayPermille > 0 && l.delayMaxUs > 0 && mrand.Intn(1000) < l.delayPermille {
+		time.Sleep(time.Duration(1+mrand.Intn(l.delayMaxUs)) * time.Microsecond)
+	}
+}
+
+// fullRecord reports whether the store holds a non-reference record under id.
+func (l *lockedStore) fullRecord(id string) bool {
+	l.mu.Lock()
+	defer l.mu.Unlock()
+	b, ok := l.st.recs[id]
+	if !ok {
+		return false
+	}
+	s, err := l.st.decodeQuiet(b)
+	return err == nil && sessions.VerifFields(s).ReferenceID == ""
 }
 
 func (l *lockedStore) trim() { l.st.events = l.st.events[:0] }
 
 func (l *lockedStore) LoadSession(id string) (*sessions.Session, error) {
+	l.delay()
 	l.mu.Lock()
 	defer l.mu.Unlock()
 	defer l.trim()
@@ -82,6 +106,7 @@ func (l *lockedStore) SaveSession(id string, s *sessions.Session) error {
 }
 
 func (l *lockedStore) DeleteSession(id string) error {
+	l.delay()
 	l.mu.Lock()
 	defer l.mu.Unlock()
 	defer l.trim()
@@ -117,6 +142,7 @@ type concCfg struct {
 	deadline                      time.Duration
 	directed                      string
 	iters                         int
+	delayPermille, delayMaxUs     int
 }
 
 const defaultMix = "set=5,get=5,del=2,getdel=4,login=1,loginx=1,logout=1,regen=1,user=1,lastaccess=1,expired=1,enc=1,dec=1,destroy=0"
@@ -138,6 +164,10 @@ func parseConc(path string) concCfg {
 			continue
 		}
 		t := strings.Fields(line)
+		if len(t) == 3 && t[0] == "storedelay" {
+			c.delayPermille, c.delayMaxUs = int(atoi64(t[1])), int(atoi64(t[2]))
+			continue
+		}
 		if len(t) != 2 {
 			fatal("bad conc script line %q", line)
 		}
@@ -254,6 +284,8 @@ type concH struct {
 	stop   int32
 	gors   []*cgor
 	wg     sync.WaitGroup
+	store  *lockedStore
+	extra  []string // lines of directed families (written by one goroutine, read after the join)
 }
 
 func (h *concH) stopped() bool { return atomic.LoadInt32(&h.stop) != 0 }
@@ -670,6 +702,8 @@ func (h *concH) directed() {
 				startAs(g0, 0, id)
 			}
 		})
+	case "destroy-race":
+		h.spawn(g0, func() { h.destroyRace(g0) })
 	case "id-destroy":
 		// per round: two requests hold the session; one destroys it while the other changes its ID.
 		g1, g2 := h.newGor(), h.newGor()
@@ -706,6 +740,126 @@ func (h *concH) directed() {
 	}
 }
 
+// destroyRace (property C07 under concurrency): per iteration a session with data, sometimes a user, and k replaced IDs
+// in their grace period is ended by one goroutine — a handler calling Destroy on a handle it got from Start, or a Start
+// that invalidates it (changed User-Agent; idle longer than SessionExpiry) — while `inflight` goroutines present its
+// current and replaced IDs to Start (createIfNew=false), `hops` times each. When all of them have finished (so the
+// ending call has returned), sequentially: no ID that ever belonged to the session may yield a session, the cache may
+// hold no full object and the store no full record under any of them. (Reference records of replaced IDs may remain;
+// they lead nowhere.) SessionIDExpiry should be large: an automatic ID change by a concurrent request re-saves the object.
+func (h *concH) destroyRace(g0 *cgor) {
+	const agent = "agent-0" // what newReq sends for client 0
+	request := func(g *cgor, cookie, ua string, create bool) (*sessions.Session, *respWriter, *http.Request) {
+		req, resp := newReq(0, cookie)
+		if ua != "" {
+			req.Header.Set("User-Agent", ua)
+		}
+		var s *sessions.Session
+		g.safe("Start", func() { s, _ = sessions.Start(resp, req, create) })
+		g.stat["requests"]++
+		return s, resp, req
+	}
+	savedExpiry := sessions.SessionExpiry
+	hammers := make([]*cgor, h.cfg.inflight)
+	for i := range hammers {
+		hammers[i] = h.newGor()
+		hammers[i].done = 1 // they live inside g0's iterations
+	}
+	ender := h.newGor()
+	ender.done = 1
+	for it := 0; it < h.cfg.iters && !h.stopped(); it++ {
+		// ---- setup (sequential)
+		variant := []string{"destroy", "destroy", "destroy", "agent", "agent", "expiry"}[g0.rnd.Intn(6)]
+		k := g0.rnd.Intn(3)
+		withUser := g0.rnd.Intn(3) == 0
+		secret := fmt.Sprintf("secret-%d", it)
+		_, resp, _ := request(g0, "", "", true)
+		id, _, _ := cookieOf(resp)
+		s, _, _ := request(g0, id, "", false)
+		if s == nil || id == "" {
+			h.extra = append(h.extra, fmt.Sprintf("panic %d destroy-race: setup failed in iteration %d", g0.id, it))
+			continue
+		}
+		ids := []string{id}
+		g0.safe("Set", func() { s.Set("secret", secret) })
+		for j := 0; j < k || (withUser && j == 0 && k == 0); j++ {
+			r := &respWriter{h: http.Header{}}
+			if withUser && j == 0 {
+				g0.safe("LogIn", func() { s.LogIn(&user{ID: "u0"}, false, r) })
+			} else {
+				g0.safe("RegenerateID", func() { s.RegenerateID(r) })
+			}
+			if v, set, _ := cookieOf(r); set {
+				ids = append(ids, v)
+			}
+		}
+		cur := ids[len(ids)-1]
+		setup := fmt.Sprintf("%s,k=%d,user=%d", variant, len(ids)-1, b2i(withUser))
+		if variant == "expiry" {
+			sessions.SessionExpiry = 15 * time.Millisecond
+			time.Sleep(20 * time.Millisecond)
+		}
+		// ---- the race
+		var wg sync.WaitGroup
+		start := make(chan struct{})
+		wg.Add(1 + len(hammers))
+		go func() {
+			defer wg.Done()
+			<-start
+			switch variant {
+			case "destroy":
+				if hs, resp, req := request(ender, cur, "", false); hs != nil {
+					ender.safe("Destroy", func() { hs.Destroy(resp, req) })
+				}
+			case "agent":
+				request(ender, cur, "another-agent", false)
+			case "expiry":
+				request(ender, cur, "", false)
+			}
+		}()
+		for _, g := range hammers {
+			g := g
+			go func() {
+				defer wg.Done()
+				<-start
+				for n := 0; n < h.cfg.hops; n++ {
+					if hs, _, _ := request(g, ids[g.rnd.Intn(len(ids))], "", false); hs != nil {
+						g.stat["hammer_got_session"]++
+					} else {
+						g.stat["hammer_got_nothing"]++
+					}
+				}
+			}()
+		}
+		close(start)
+		wg.Wait()
+		sessions.SessionExpiry = savedExpiry
+		g0.stat["destroy_iterations"]++
+		g0.stat["destroy_"+variant]++
+		// ---- afterwards (sequential): nothing of the session may be left
+		bad := func(format string, args ...interface{}) {
+			h.extra = append(h.extra, fmt.Sprintf("resurrect %d %s ", it, setup)+fmt.Sprintf(format, args...))
+			g0.stat["resurrect"]++
+		}
+		for n, x := range ids {
+			if c := sessions.VerifCached(x); c != nil && sessions.VerifFields(c).ReferenceID == "" {
+				bad("cache holds the ended session under id#%d of %d", n, len(ids)-1)
+			}
+			if h.store.fullRecord(x) {
+				bad("store holds a full record of the ended session under id#%d of %d", n, len(ids)-1)
+			}
+		}
+		for n, x := range ids {
+			if after, _, _ := request(g0, x, "", false); after != nil {
+				var v interface{}
+				var u sessions.User
+				g0.safe("Get", func() { v, u = after.Get("secret", nil), after.User() })
+				bad("Start with id#%d of %d returned a session after the end: secret=%s user=%s", n, len(ids)-1, valStr(v), renderUser(u, false))
+			}
+		}
+	}
+}
+
 // ---------------------------------------------------------------------------
 
 func runConc(script, outPath string) {
@@ -720,12 +874,13 @@ func runConc(script, outPath string) {
 	cfg := parseConc(script)
 	h := &concH{cfg: cfg}
 	h.mix, h.mixTot = parseMix(cfg.mix)
-	emit("conc clients=%d inflight=%d reqs=%d hops=%d seed=%d cache=%d codec=%s idexpiry=%d grace=%d keys=%d mix=%s cuid=%d purge=%d hist=%d directed=%s iters=%d procs=%d",
+	emit("conc clients=%d inflight=%d reqs=%d hops=%d seed=%d cache=%d codec=%s idexpiry=%d grace=%d keys=%d mix=%s cuid=%d purge=%d hist=%d directed=%s iters=%d storedelay=%d/%d procs=%d",
 		cfg.clients, cfg.inflight, cfg.reqs, cfg.hops, cfg.seed, cfg.cache, cfg.codec, int64(cfg.idExpiry), int64(cfg.grace), cfg.keys, cfg.mix,
-		cfg.cuid, cfg.purge, b2i(cfg.hist), qopt(cfg.directed), cfg.iters, runtime.GOMAXPROCS(0))
+		cfg.cuid, cfg.purge, b2i(cfg.hist), qopt(cfg.directed), cfg.iters, cfg.delayPermille, cfg.delayMaxUs, runtime.GOMAXPROCS(0))
 	out.Flush()
 
-	sessions.Persistence = &lockedStore{st: newStore(cfg.codec)}
+	h.store = &lockedStore{st: newStore(cfg.codec), delayPermille: cfg.delayPermille, delayMaxUs: cfg.delayMaxUs}
+	sessions.Persistence = h.store
 	sessions.MaxSessionCacheSize = cfg.cache
 	sessions.SessionIDExpiry = cfg.idExpiry
 	sessions.SessionIDGracePeriod = cfg.grace
@@ -785,6 +940,9 @@ func runConc(script, outPath string) {
 	sort.Slice(evs, func(i, j int) bool { return evs[i].ts < evs[j].ts })
 	for _, e := range evs {
 		emit("%s", e.line)
+	}
+	for _, l := range h.extra {
+		emit("%s", l)
 	}
 	for _, g := range h.gors {
 		for _, p := range g.panics {
